@@ -114,14 +114,41 @@ fn expected_failure(r: &RunSpec) -> Vec<Option<String>> {
             let mut cfg = config_for(r);
             cfg.failure_persistence = FailurePersistence::None;
             let res = run_prog(&prog, s.build(), cfg, Opts::default());
+            if std::env::var("VERIF_C12_DUMP").is_ok() {
+                eprintln!("C12DUMP {} executions; result {:?}; thread::panicking()={}", res.logs.len(), res.result, std::thread::panicking());
+                for (k, l) in res.logs.iter().enumerate() {
+                    eprintln!("C12DUMP exec {k}: {:?}", l.entries.iter().map(|e| (e.task, e.pc, e.obs)).collect::<Vec<_>>());
+                }
+            }
             res.result.err()
         })
         .collect()
 }
 
+static CASE_NO: std::sync::atomic::AtomicUsize = std::sync::atomic::AtomicUsize::new(0);
+
 fn decide(h0: &History, out: &mut CaseOut) -> Result<(), Fail> {
+    let case_no = CASE_NO.fetch_add(1, std::sync::atomic::Ordering::SeqCst);
+    if let Ok(v) = std::env::var("VERIF_C12_SKIP_BEFORE") {
+        let k: usize = v.parse().unwrap_or(0);
+        let only: Option<usize> = std::env::var("VERIF_C12_ALSO").ok().and_then(|x| x.parse().ok());
+        if case_no < k && Some(case_no) != only {
+            return Ok(());
+        }
+        eprintln!("C12DEBUG running case {case_no} {}", serde_json::to_string(h0).unwrap());
+    }
     // materialise directories
     let mut h = h0.clone();
+    if let (Ok(m), Ok(also)) = (std::env::var("VERIF_C12_RUNMASK"), std::env::var("VERIF_C12_ALSO")) {
+        if also.parse::<usize>().ok() == Some(case_no) {
+            let m: usize = m.parse().unwrap_or(7);
+            let mut k = 0;
+            h.runs.retain(|_| {
+                k += 1;
+                m & (1 << (k - 1)) != 0
+            });
+        }
+    }
     let base = verif_root().join("work").join(format!("c12-{}-{}", std::process::id(), hash_json(&serde_json::to_value(h0).unwrap())));
     let _ = std::fs::remove_dir_all(&base);
     std::fs::create_dir_all(&base).map_err(|e| (String::new(), format!("harness: {e}")))?;
@@ -187,6 +214,9 @@ fn decide(h0: &History, out: &mut CaseOut) -> Result<(), Fail> {
                     // a portfolio re-raises *a* member's failure or reports it through its own bookkeeping
                     // assertion: only "fails iff a member fails" is claimed for portfolios
                     if r.scheds.len() == 1 && !exp.iter().flatten().any(|m| m == p) {
+                        if std::env::var("VERIF_C12_DEBUG").is_ok() {
+                            eprintln!("C12DEBUG first={:?} again={:?} again2={:?} child={p:?}", exp, expected_failure(r), expected_failure(r));
+                        }
                         return fail(format!("run {i}: caught payload {p:?}, expected one of {:?}", exp.iter().flatten().collect::<Vec<_>>()));
                     }
                     if p.starts_with("assert failed in T") && !p.starts_with("assert failed in T0") {
@@ -235,7 +265,13 @@ fn decide(h0: &History, out: &mut CaseOut) -> Result<(), Fail> {
                 }
                 Persist::Print => {
                     kinds.insert(1);
-                    if any_fail && printed.is_empty() {
+                    // members of a portfolio fail on their own OS threads and may print at the same time: interleaved
+                    // lines are accepted as "printed", they are just not replayed
+                    let garbled = r.scheds.len() > 1 && printed.is_empty() && seg.contains("failing schedule:");
+                    if garbled {
+                        out.class("portfolio_output_interleaved_not_replayed");
+                    }
+                    if any_fail && printed.is_empty() && !garbled {
                         return fail(format!("run {i}: failed with FailurePersistence::Print but no schedule was printed (history of {} runs, this is run {i})", h.runs.len()));
                     }
                     if !any_fail && !printed.is_empty() {
